@@ -4,11 +4,14 @@ import random
 from . import encgen, encrun, progcheck as P, progrun
 
 PROP = "C03"
+REL_NAMES = ("rjmp", "rcall", "brbs", "brbc", "breq", "brcc", "brne")
 
 OPS = {"rjmp": (0xC000, 12, None), "rcall": (0xD000, 12, None), "breq": (0xF001, 7, None), "brne": (0xF401, 7, None), "brlo": (0xF000, 7, None),
        "brbs 3,": (0xF003, 7, None), "brbc 6,": (0xF406, 7, None)}
 FILL = [("  nop", 1), ("  .dw 1", 1), ("  .dw 1, 2, 3", 3), ("  .db 1", 1), ("  .db 1, 2, 3", 2), ('  .db "abcd"', 2), ("  jmp 0", 2), ("  lds r16, 0x60", 2),
-        ("  .dd 7", 2), ("  .dq 9", 4), ("  ldi r16, 1", 1)]
+        ("  .dd 7", 2), ("  .dq 9", 4), ("  ldi r16, 1", 1),
+        # strings occupy their UTF-8 bytes (padded to a word), not their characters
+        ('  .db "\u00e4\u00f6"', 2), ('  .db "\u20ac"', 2), ('  .db "\u00e9"', 1), ('  .db "\U0001F600", 1', 3), ('  .db "\u0416\u0416\u0416"', 3)]
 
 
 def word_of(op, d):
@@ -67,7 +70,12 @@ def program_cases(rng, n):
 
 
 def run(res):
-    cs = encgen.relative("F") + (encgen.relative("R") if res.tier != "quick" else encgen.relative("R")[::7])
+    cs0 = encgen.relative("F") + (encgen.relative("R") if res.tier != "quick" else encgen.relative("R")[::7])
+    from . import gen
+
+    def cs(vh):
+        # ... and, under every device row, the relative forms at both range ends and one flash size beyond them
+        return cs0 + [c for c in encgen.per_device(gen.read_devices(vh), res.tier != "quick") if c.split(" ")[2] in REL_NAMES]
     encrun.standard_run(
         res, PROP, cs, keep=lambda r: True, what="relative-jump/branch",
         rule=("all 18 br<cond>, brbs/brbc x 8 bits, rjmp, rcall at every displacement -70..70 / -66..66 / -2055..2055 around both "
